@@ -616,6 +616,10 @@ func Execute(spec *Spec, opt Options) *Result {
 	// $random/$shuffle draw from math/rand's global source: one run, one seed
 	rand.Seed(int64(spec.Seed)) //nolint:staticcheck // deliberate: reproducible global source
 	r.epochMs = opt.EpochMs
+	if shift := setClockShift(spec.ClockShiftSec); shift != 0 {
+		r.epochMs += shift * 1000
+		res.Faults["clock-far-future"]++
+	}
 
 	usesRegistry := spec.Kind == "reg-compile" || spec.Kind == "expr-registry"
 
